@@ -41,7 +41,7 @@ Record model := mkModel {
 Inductive err :=
 | EMissing (m : list (name * list name))
 | ECircular
-| EKey | EType | EValue | EFuel.
+| EKey | EType | EValue | EFuel | EName.
 Inductive res (A : Type) := Val (a : A) | Err (e : err).
 Arguments Val {A} a.
 Arguments Err {A} e.
